@@ -1032,5 +1032,5 @@ fn nontrivial(op: &str, args: &[&str]) -> bool {
 
 fn main() {
     harness_main(Spec { prop: "C03", gen, exec, nontrivial, hang_secs: 20,
-        rule: "exhaustive: all ordered pairs of shapes rank<=3 len<=3 (39^2) for broadcast, zip, broadcast_to (source,target) and 2-lists of broadcast_arrays; triples: 4000 sampled (quick) / all 39^3 (thorough); stretch targets up to rank 6; seeded random rank<=4 len<=5 mostly-compatible pairs/triples; zero-length shapes (refused on aligned axes, accepted as added leading target axes). The crate-internal helpers broadcast_h2 / broadcast_h3 (ops h2 / h3) are observed through the public pure lifts `multiply` (string x count) and `ljust` (string x width x fill char) with per-position-recoverable operands, so the result text gives back the two / three stretched operands: all ordered pairs rank<=3 len<=3 for h2; triples: every ordered pair with a sampled third operand in a sampled position + 1500 sampled (quick) / all 39^3 (thorough); rank-0 operands; random rank<=4 len<=5. Tag arrays (distinct integers; k-th operand offset 1000k). Robustness streams: big targets (lib big_shapes, every axis length 7..17 in leading/inner/trailing position, targets above 4096 elements of rank 1..6 such as [70,70], [3,41,41], [65,64], [4097], [8192]; seeded random targets of 300..6000 elements, thorough ..12000) x every source with one axis made a unit axis / only one axis kept / leading axes dropped / the one-element array, complementary unit-axis pairs in both orders, 2- and 3-lists, an added leading axis on the big array, the equal-count reshape arm and a non-stretchable neighbour, for broadcast_to, broadcast, zip, broadcast_arrays; h2 / h3 on targets above 4096 elements; every ordered pair of 13 zero-length shapes and 9 small ones (at least one zero-length) for all six ops; value-class sources (every 0/1 pattern of up to 4 elements = -0.0/+0.0 under the f64 image, mixtures with NaN, subnormals, 2^53+2). EVERY broadcast / zip / broadcast_to / broadcast_arrays case is executed on the plain Array<i64> receiver (the compared answer), a second time, on the Result receiver (Ok(array).broadcast / .broadcast_to, <Result<..>>::broadcast_arrays), and on the u8, bool and two f64 images (tag 0 = -0.0; value classes mod 8; bit-wise; pairs: both components separately) - results of up to 600 elements also i8, u8 near 255, i64 beyond 2^53, u16, i32, f32, usize, String, all on both receivers; any divergence fails the case. distinct = distinct case lines; non-trivial = at least one operand stretched along an axis of target length > 1" });
+        rule: "exhaustive: all ordered pairs of shapes rank<=3 len<=3 (39^2) for broadcast, zip, broadcast_to (source,target) and 2-lists of broadcast_arrays; triples: 4000 sampled (quick) / all 39^3 (thorough); stretch targets up to rank 6; seeded random rank<=4 len<=5 mostly-compatible pairs/triples; zero-length shapes (refused on aligned axes, accepted as added leading target axes). The crate-internal helpers broadcast_h2 / broadcast_h3 (ops h2 / h3) are observed through the public pure lifts `multiply` (string x count) and `ljust` (string x width x fill char) with per-position-recoverable operands, so the result text gives back the two / three stretched operands: all ordered pairs rank<=3 len<=3 for h2; triples: every ordered pair with a sampled third operand in a sampled position + 1500 sampled (quick) / all 39^3 (thorough); rank-0 operands; random rank<=4 len<=5. Tag arrays (distinct integers; k-th operand offset 1000k). Robustness streams: big targets (lib big_shapes, every axis length 7..17 in leading/inner/trailing position, targets above 4096 elements of rank 1..6 such as [70,70], [3,41,41], [65,64], [4097], [8192]; seeded random targets of 300..6000 elements, thorough ..12000) x every source with one axis made a unit axis / only one axis kept / leading axes dropped / the one-element array, complementary unit-axis pairs in both orders, 2- and 3-lists, an added leading axis on the big array, the equal-count reshape arm and a non-stretchable neighbour, for broadcast_to, broadcast, zip, broadcast_arrays; h2 / h3 on targets above 4096 elements; every ordered pair of 13 zero-length shapes and 9 small ones (at least one zero-length) for all six ops; value-class sources (every 0/1 pattern of up to 4 elements = -0.0/+0.0 under the f64 image, mixtures with NaN, subnormals, 2^53+2). EVERY broadcast / zip / broadcast_to / broadcast_arrays case is executed on the plain Array<i64> receiver (the compared answer), a second time, on the Result receiver (Ok(array).broadcast / .broadcast_to, <Result<..>>::broadcast_arrays), and on the u8, bool and two f64 images (tag 0 = -0.0; value classes mod 8; bit-wise; pairs: both components separately) - results of up to 600 elements also i8, u8 near 255, i64 beyond 2^53, u16, i32, f32, usize, String, all on both receivers; any divergence fails the case. PART 2: hidden state - `seq` lines (several calls on one thread, each compared with the model): shape pairs colliding under h*m+dim for m = 31, 33, 37, 131, 257 (lib collision_shape_pairs + [2,1]/[1,1+m] families) as two sources of one target, two targets of one source and the operands of one call, both orders A-B-A; axis lengths c / c+2^8 / c+2^16; permuted dims; same shapes with permuted / shifted values; refused-then-accepted calls; seeded random interleavings; and an A-B-A re-run of the previous case after EVERY case (STATE-DIVERGENCE). Huge: targets of 16 384 .. 196 611 elements (lib huge_shapes + counts at 2^14 / 2^15 / 2^16 +-1, axes 65 535 / 65 536 / 65 537, ranks 1..5) x sources_of x broadcast_to / zip / broadcast / broadcast_arrays, equal shapes, added leading axis; the full model answer where the list-backed model takes < 0.2 s (quick) / 2 s (thorough), otherwise `n` lines: the model answers the result shape (broadcastShape / commonBroadcastShape) and the values are compared with a harness-native odometer reference, which is itself compared with the full model answer on every other broadcast / zip / broadcast_to / broadcast_arrays case of the run where it has an opinion (count in the oracle_report sample; the run fails if fewer than 1000). Every axis length 1..300 in trailing / inner position; counts 31, 37, 1000, 1001, primes, 49; the same object on both sides of broadcast / zip (i64 and the f64 NaN / -0.0 image); ranks 5..8; lists of 5..70 arrays. distinct = distinct case lines; non-trivial = at least one operand stretched along an axis of target length > 1 (seq: in some member)" });
 }
